@@ -88,7 +88,7 @@ Proof.
         first [ rewrite (go_index_b_at (l ++ [p; a]) e (Datatypes.S (length l)) a (nth_error_end2_last l p a)) by (rewrite ?Hlen; go_arith; lia)
               | rewrite (go_index_b_at (l ++ [p; a]) e (length l) p (nth_error_end2_prev l p a)) by (rewrite ?Hlen; go_arith; lia) ]
     end.
-    unfold go_make_bytes_cap. rewrite ?Hlen. cbn [bind]. byte_masks.
+    unfold go_make_bytes_cap, go_max_alloc. rewrite ?Hlen. cbn [bind]. byte_masks.
     destruct (b2n a mod 128 =? 0)%N eqn:Ea; destruct (128 <=? b2n p)%N eqn:Ep;
       repeat (cbn [bind negb]; cbv beta; go_decide); try reflexivity.
     (* the copy, then the loop *)
@@ -100,9 +100,12 @@ Proof.
                _ _ _ me_cond (me_step a) me_post).
     + (* the pure loop is the model's scan *)
       cbn [bind].
-      match goal with |- context [for_pure _ _ _ ?fuel (?i, D)] =>
-        replace i with (Z.of_nat (length (l ++ [p]))) by (rewrite app_length; cbn [length]; go_arith; lia);
-        rewrite HD; rewrite (me_loop_model a (l ++ [p]) [] fuel) by (first [constructor | rewrite app_length; cbn [length]; go_arith; lia])
+      match goal with |- context [for_pure _ _ _ _ (?i, D)] =>
+        replace i with (Z.of_nat (length (l ++ [p]))) by (rewrite app_length; cbn [length]; go_arith; lia)
+      end.
+      rewrite HD.
+      match goal with |- context [for_pure _ _ _ ?fuel _] =>
+        rewrite (me_loop_model a (l ++ [p]) [] fuel) by (first [constructor | rewrite ?app_length; cbn [length]; go_arith; lia])
       end.
       rewrite rev_app_distr. cbn [rev app].
       destruct (ScriptNum.strip_zeros_rev (p :: rev l)) as [|top lower]; [reflexivity|].
@@ -118,7 +121,8 @@ Proof.
           rewrite (go_index_b_at D e (Z.to_nat (i - 1)) x Hx) by (go_arith; lia)
       end.
       cbn [bind]. byte_masks. pose proof (b2z_range x) as Hbx.
-      destruct (b2n x =? 0)%N eqn:E0; destruct (128 <=? b2n x)%N eqn:E1;
+      assert (Hxz : b2z x = Z.of_N (b2n x)) by reflexivity.
+      destruct (b2n x =? 0)%N eqn:E0; destruct (128 <=? b2n x)%N eqn:E1; try (exfalso; lia);
         repeat (cbn [bind negb]; cbv beta zeta; go_decide); try reflexivity;
         repeat match goal with
         | |- context [go_set_index D ?e ?v] =>
